@@ -83,7 +83,7 @@ def main():
                 pw = parse_kind(kind, tw, opts_w)
             except Exception as e:
                 et, where = exc_symptom(e)
-                rec["discs"].append(dict(base, field="raises", stage="parse_wrapped", exc=et, exc_in=where, msg=str(e)[:160]))
+                rec["discs"].append(dict(base, field="raises", stage="parse_wrapped", exc=et, exc_in=where, msg=str(e)[:160], unwrapped_parse_ok=True))
                 rec["text"] = tw
                 print(json.dumps(rec, default=repr))
                 continue
